@@ -312,7 +312,11 @@ def write_summary_file_vue(stats, filepath, year=2025, currency_format="${amount
 
     if user_sections:
         for section_name, section_data in user_sections.items():
-            section_id = section_name.lower().replace(' ', '_')
+            section_id = base_section_id = section_name.lower().replace(' ', '_')
+            n = 1
+            while section_id in sections:  # "My View" / "my_view" must not overwrite each other
+                n += 1
+                section_id = f"{base_section_id}_{n}"
             merchants_list = section_data.get('merchants', [])
 
             if not merchants_list:
